@@ -396,3 +396,23 @@ PROPS["C01"] = {
          "covers": ["finished", "asset-fetched", "asset-of-asset", "redirect-followed", "always-failing", "outlink-produced"]},
     ],
 }
+
+C16_MODELS = dict(PIPE_MODELS)
+PROPS["C16"] = {
+    "level": "model_checking",
+    "explanation": "the per-seed resource discipline, as step obligations so that 'N vs 4N seeds' follows by induction: every response body obtained by archive() is closed on every path (C02 harness); after postprocessItem the item holds no body and the body is closed; "
+                   "closeBodies leaves no node of the tree holding a body (all depths, all statuses); the per-host limiter table never exceeds maxBuckets for any arrival order and usage counts (all map iteration orders); "
+                   "at the end of a seed's life the reactor tracks nothing and all tokens are free (C01/C12 harnesses).",
+    "bounds": "trees of <=3 levels / <=2 children; limiter: maxBuckets 1-2, <=2 pre-existing hosts with usage 1..1000, 2 arrivals from 3 hosts; plus the bounds of the C01, C02, C06 and C12 harnesses it reuses",
+    "outside": "goroutine and file-descriptor counts of a live process, temporary files on a real file system, quiescence of the WARC writer: not encodable; empty host names and usage counts >= 2^31-1 (evictLFU cannot evict those; unreachable for http URLs)",
+    "assumptions": COMMON_ASSUME + ["stub contracts of C01/C02/C06"],
+    "models": C16_MODELS,
+    "stub_pkgs": DEFAULT_STUBS + [STATS],
+    "harnesses": [
+        {"pkg": PP, "func": "VerifH_C16_close_bodies", "covers": ["three-levels", "body-closed"]},
+        {"pkg": RL, "func": "VerifH_C16_bucket_bound", "opts": {"abstract_time": True}, "covers": ["table-full"]},
+        {"pkg": AR, "func": "VerifH_C02_archive", "models": ARCH_MODELS, "opts": {"max_steps": 50000000, "unwind": 70000}, "covers": ["archived", "retries-exhausted"]},
+        {"pkg": PP, "func": "VerifH_C06_postprocess", "models": POSTPROC_MODELS, "opts": {"map_order_all": False}, "covers": ["body-released"]},
+        {"pkg": "internal/verifpipe", "func": "VerifH_C01_one_seed", "replay_tries": 2, "opts": {"max_steps": 50000000, "unwind": 70000, "map_order_all": False}, "covers": ["finished"]},
+    ],
+}
